@@ -24,35 +24,35 @@ type OptSpec struct {
 }
 
 type Op struct {
-	Kind    string   `json:"kind"` // parse validate collect clear cfg env
-	Schema  int      `json:"schema"`
-	Front   string   `json:"front,omitempty"` // map zjson zhttp zenv
-	Input   Val      `json:"input"`
-	Pre     *Val     `json:"pre,omitempty"` // pre-fill of the destination before Parse
+	Kind    string    `json:"kind"` // parse validate collect clear cfg env
+	Schema  int       `json:"schema"`
+	Front   string    `json:"front,omitempty"` // map zjson zhttp zenv
+	Input   Val       `json:"input"`
+	Pre     *Val      `json:"pre,omitempty"` // pre-fill of the destination before Parse
 	Opts    []OptSpec `json:"opts,omitempty"`
-	Collect string   `json:"collect,omitempty"`
-	Ref     int      `json:"ref,omitempty"`
-	PanicAt int      `json:"panic_at,omitempty"`
-	ErrAt   int      `json:"err_at,omitempty"`
-	Arg     string   `json:"arg,omitempty"`
-	Rev     bool     `json:"rev,omitempty"` // destination struct types declare their fields in reverse order
-	IO      *IOSpec  `json:"io,omitempty"`
+	Collect string    `json:"collect,omitempty"`
+	Ref     int       `json:"ref,omitempty"`
+	PanicAt int       `json:"panic_at,omitempty"`
+	ErrAt   int       `json:"err_at,omitempty"`
+	Arg     string    `json:"arg,omitempty"`
+	Rev     bool      `json:"rev,omitempty"` // destination struct types declare their fields in reverse order
+	IO      *IOSpec   `json:"io,omitempty"`
 }
 
 type World struct {
-	Prop     string          `json:"property"`
-	Seed     uint64          `json:"seed"`
-	Idx      int             `json:"idx"`
-	Family   string          `json:"family,omitempty"`
-	Cfg      DecCfg          `json:"cfg"`
-	Schemas  []*Node         `json:"schemas"`
-	Tasks    [][]Op          `json:"tasks"`
-	Preempts []simrt.Preempt `json:"preempts,omitempty"`
-	Params   map[string]int  `json:"params,omitempty"`
-	Dec      Decisions       `json:"decisions,omitempty"`
-	Class    string          `json:"class,omitempty"`
-	Detail   string          `json:"detail,omitempty"`
-	Digest   string          `json:"event_digest,omitempty"`
+	Prop     string           `json:"property"`
+	Seed     uint64           `json:"seed"`
+	Idx      int              `json:"idx"`
+	Family   string           `json:"family,omitempty"`
+	Cfg      DecCfg           `json:"cfg"`
+	Schemas  []*Node          `json:"schemas"`
+	Tasks    [][]Op           `json:"tasks"`
+	Preempts []simrt.Preempt  `json:"preempts,omitempty"`
+	Params   map[string]int   `json:"params,omitempty"`
+	Dec      Decisions        `json:"decisions,omitempty"`
+	Class    string           `json:"class,omitempty"`
+	Detail   string           `json:"detail,omitempty"`
+	Digest   string           `json:"event_digest,omitempty"`
 	Faults   map[string]int64 `json:"faults_fired,omitempty"`
 	// Sequence: the violation needs library state left behind by earlier worlds of the same process
 	// (package-level caches and the like): the replay is this list of world indices, executed in order.
@@ -261,18 +261,18 @@ type X struct {
 	Trace bool
 
 	// reach / evidence
-	Probes     map[string]int64
-	Faults     map[string]int64
-	Ops        int64
-	Steps      int64
-	NonTrivial bool
-	Sig        strings.Builder // state signature material
-	digests    []string
-	AllEvents  []string
-	Replay     bool
-	genRng     *Rng // run-time generation (preemption points); results are stored in the world
-	given      any  // op.Arg == "given": hand this Go value to Parse as is
-	leanRecs   [8]*OpRec
+	Probes        map[string]int64
+	Faults        map[string]int64
+	Ops           int64
+	Steps         int64
+	NonTrivial    bool
+	Sig           strings.Builder // state signature material
+	digests       []string
+	AllEvents     []string
+	Replay        bool
+	genRng        *Rng // run-time generation (preemption points); results are stored in the world
+	given         any  // op.Arg == "given": hand this Go value to Parse as is
+	leanRecs      [8]*OpRec
 	OpaqueResults bool
 	SanitizeBad   string
 }
@@ -570,6 +570,10 @@ func callParse(b *Built, data any, dest reflect.Value, opts []z.ExecOption) any 
 		return s.Parse(data, d.(*int), opts...)
 	case *z.NumberSchema[float64]:
 		return s.Parse(data, d.(*float64), opts...)
+	case *z.NumberSchema[int64]:
+		return s.Parse(data, d.(*int64), opts...)
+	case *z.NumberSchema[float32]:
+		return s.Parse(data, d.(*float32), opts...)
 	case *z.BoolSchema[bool]:
 		return s.Parse(data, d.(*bool), opts...)
 	case *z.TimeSchema:
@@ -602,6 +606,10 @@ func callValidate(b *Built, dest reflect.Value, opts []z.ExecOption) any {
 		return s.Validate(d.(*int), opts...)
 	case *z.NumberSchema[float64]:
 		return s.Validate(d.(*float64), opts...)
+	case *z.NumberSchema[int64]:
+		return s.Validate(d.(*int64), opts...)
+	case *z.NumberSchema[float32]:
+		return s.Validate(d.(*float32), opts...)
 	case *z.BoolSchema[bool]:
 		return s.Validate(d.(*bool), opts...)
 	case *z.TimeSchema:
